@@ -38,7 +38,7 @@ EXPLANATION = (
     "alignments) are replaced by SYMBOLIC integers over the full range of their type. Each module is printed in custom form by "
     "the real printer (FormatProgram.print / the ops' print methods), the symbolic text is parsed back by the real parser in a "
     "fresh context, and z3 decides for all payload values: the custom text parses; the parsed module has the same structure and "
-    "payloads as the original (properties equal to their declared default count as absent); printing the parsed module in "
+    "payloads as the original (an absent property with a declared default counts as that default); printing the parsed module in "
     "custom form gives the same text; and the generic printing parses to the same module as the custom printing."
 )
 FUNCTIONS = ["xdsl.irdl.declarative_assembly_format.FormatProgram.print / parse and its directives", "print/parse overrides of arith, cf, func, memref, scf, llvm operations", "Parser.parse_operation (custom branch)", "Printer.print_op"]
@@ -613,6 +613,25 @@ def ctx():
     return c
 
 
+def ctx_all():
+    from xdsl.dialects import get_all_dialects
+
+    c = Context()
+    for n, f in get_all_dialects().items():
+        c.register_dialect(n, f)
+    return c
+
+
+def corpus_text(rel):
+    import os
+
+    import xdsl
+
+    root = os.path.join(os.path.dirname(os.path.dirname(os.path.abspath(xdsl.__file__))), "tests", "filecheck", "dialects")
+    with open(os.path.join(root, rel)) as f:
+        return f.read()
+
+
 def int_range(t):
     if not isinstance(t, IntegerType):
         return -(1 << 63), (1 << 63) - 1  # index
@@ -708,7 +727,7 @@ def _has_sym(a):
             return any(_has_sym(e) if isinstance(e, Attribute) else isinstance(e, (SymInt, SymStr)) for e in d)
         if hasattr(d, "values") and not isinstance(d, (str, bytes)):
             return any(_has_sym(e) for e in d.values() if isinstance(e, Attribute))
-        return not isinstance(d, (int, str, bytes, float, frozenset, type(None))) or isinstance(d, (SymInt, SymStr))
+        return isinstance(d, (SymInt, SymStr)) or type(d).__module__.startswith("vx.")  # proxies of the engine; everything else (ints, strings, enums, maps, ...) is concrete
     return False
 
 
@@ -723,8 +742,8 @@ def defaults_of(op):
 
 
 def snapshot(module):
-    """structure (compared concretely) with the attribute objects kept apart (compared through the solver). A property or
-    attribute that is concretely equal to its declared default counts as absent."""
+    """structure (compared concretely) with the attribute objects kept apart (compared through the solver). An absent
+    property or attribute with a declared default counts as that default."""
     vid, bid = {}, {}
     for op in module.walk():
         for r in op.results:
@@ -738,8 +757,12 @@ def snapshot(module):
 
     def rec(op):
         pdef, adef = defaults_of(op)
-        props = {k: v for k, v in op.properties.items() if not (k in pdef and not _has_sym(v) and pdef[k] == v)}
-        ats = {k: v for k, v in op.attributes.items() if not (k in adef and not _has_sym(v) and adef[k] == v)}
+        props = dict(op.properties)
+        ats = dict(op.attributes)
+        for k, dv in pdef.items():
+            props.setdefault(k, dv)  # an absent property with a declared default means that default
+        for k, dv in adef.items():
+            ats.setdefault(k, dv)
         struct.append((op.name, tuple(vid.get(o, -1) for o in op.operands), tuple(str(r.type) for r in op.results), tuple(sorted(props)), tuple(sorted(ats)), tuple(bid.get(s_, -1) for s_ in op.successors),
                        len(op.regions)))
         attrs.append((op.name, [(k, props[k]) for k in sorted(props)] + [(k, ats[k]) for k in sorted(ats)]))
@@ -820,9 +843,45 @@ def symbolise(attr, src, names):
     return attr
 
 
+# corpus files (tests/filecheck/dialects/) whose modules round-trip with a discardable attribute on every operation on the
+# tree as repaired; (path, size in characters). Read from the tree under test at run time.
+CORPUS = [
+    ("wasm/wat.mlir", 75), ("bigint/attrs.mlir", 184), ("arm/test_registers.mlir", 242), ("arm_neon/test_registers.mlir", 262),
+    ("x86/x86_registers_valid.mlir", 282), ("llvm/array.mlir", 286), ("builtin/packed.mlir", 320), ("mod_arith/mod_arith.mlir", 352),
+    ("builtin/parse_with_location.mlir", 363), ("rv32/rv32_assembly_emission.mlir", 367), ("stim/attrs.mlir", 422), ("riscv_func/lower_riscv_func_main.mlir", 436),
+    ("emitc/emitc_attrs.mlir", 441), ("wasm/ops.mlir", 463), ("arith/arith_constant_fold_interp.mlir", 471), ("memref/canonicalize.mlir", 489),
+    ("asm/asm_ops_canonicalize.mlir", 534), ("scf/yield_implicit.mlir", 563), ("asm/asm_ops.mlir", 585), ("shard/attrs.mlir", 591),
+    ("polynomial/types.mlir", 630), ("py/ops.mlir", 640), ("complex/complex_attr.mlir", 645), ("rv64/rv64_assembly_emission.mlir", 646),
+    ("x86_func/x86_func_ops.mlir", 666), ("arm_func/arm_func_ops.mlir", 675), ("ltl/ltl_op.mlir", 689), ("llvm/attrs.mlir", 754),
+    ("arith/arith_cfg.mlir", 754), ("vector/vector_pure_ops.mlir", 784), ("builtin/module.mlir", 787), ("transform/transform_interpreter.mlir", 804),
+    ("symref/ops.mlir", 808), ("ub/ops.mlir", 922), ("transform/transform_named_sequence.mlir", 949), ("printf/printf_basics.mlir", 1006),
+    ("wasmssa/types.mlir", 1054), ("mpi/memref_compat.mlir", 1082), ("arith/arith_attrs.mlir", 1103), ("vector/vector_attrs.mlir", 1140),
+    ("riscv_debug/riscv_debug_ops.mlir", 1222), ("cmath/cmath_ops.mlir", 1317), ("builtin/unrealized_conv_cast.mlir", 1337), ("func/func_ops_generic.mlir", 1369),
+    ("llvm/inline_asm.mlir", 1402), ("dmp/canonicalize.mlir", 1482), ("dmp/ops.mlir", 1540), ("snitch/snitch_ops.mlir", 1612),
+    ("arm/test_ops.mlir", 1791), ("equivalence/equivalence_ops.mlir", 1843), ("polynomial/attrs.mlir", 1873), ("ptr/canonicalize.mlir", 1919),
+    ("smt/bv_ops.mlir", 2029), ("llvm/global.mlir", 2125), ("varith/varith_ops.mlir", 2205), ("x86/canonicalize.mlir", 2315),
+    ("riscv_cf/canonicalize.mlir", 2440), ("ematch/ops.mlir", 2443), ("riscv_func/riscv_func_ops.mlir", 2453), ("bigint/ops.mlir", 2561),
+    ("emitc/emitc_ops.mlir", 2654), ("bufferization/bufferization_ops.mlir", 2875), ("math_xdsl/math_xdsl_ops.mlir", 2919), ("riscv_func/lower_riscv_func.mlir", 2920),
+    ("snitch/snitch_to_riscv_lowering.mlir", 2970), ("rv32/rv32_ops.mlir", 3233), ("x86/x86_memory_effects.mlir", 3295), ("riscv_cf/assembly_emission.mlir", 3351),
+    ("llvm/icmp.mlir", 3367), ("polynomial/ops.mlir", 3395), ("arm_neon/test_ops.mlir", 3470), ("accfg/accfg_ops.mlir", 3725),
+    ("builtin/attrs.mlir", 3728), ("shard/ops.mlir", 3853), ("emitc/emitc_types.mlir", 3902), ("llvm/pointers.mlir", 4014),
+    ("rv64/rv64_ops.mlir", 4025), ("llvm/example.mlir", 4360), ("func/func_ops.mlir", 4541), ("affine/examples.mlir", 4768),
+    ("llvm/arithmetic.mlir", 4808), ("omp/attrs.mlir", 4835), ("comb/comb_ops.mlir", 4899), ("cf/cf_ops.mlir", 5161),
+    ("scf/canonicalize.mlir", 5691), ("memref_stream/canonicalize.mlir", 5837), ("llvm/func.mlir", 6069), ("llvm/arith_vector_types.mlir", 6136),
+    ("complex/ops.mlir", 6581), ("arith/arith_ops_custom.mlir", 7009), ("transform/transform_ops.mlir", 7212), ("arith/canonicalize.mlir", 7234),
+    ("affine/affine_ops.mlir", 7348), ("snitch_runtime/snitch_runtime_ops.mlir", 7457), ("transform/transform_types.mlir", 7482), ("stim/stim_ops.mlir", 7607),
+    ("fsm/fsm_op.mlir", 7672), ("csl/csl-wrapper-ops.mlir", 7759), ("snitch_stream/convert_snitch_stream_to_snitch.mlir", 7808), ("dlti/attrs.mlir", 7916),
+    ("complex/canonicalize.mlir", 8018), ("memref/memref_ops.mlir", 8845), ("tensor/ops.mlir", 8846), ("scf/scf_ops.mlir", 9637),
+    ("gpu/ops.mlir", 9816), ("vector/vector_ops.mlir", 10002), ("acc/attrs.mlir", 10686), ("llvm/llvm_intrinsics.mlir", 11254),
+    ("wasmssa/ops.mlir", 12292), ("math/math_ops_custom.mlir", 15387),
+]
+
+
 def build_module(ob, src):
     if "gen" in ob:
         return gen_module(ob, src)
+    if "corpus" in ob:
+        return Parser(ctx_all(), corpus_text(ob["corpus"])).parse_module()
     from xdsl.dialects.builtin import StringAttr
 
     m = Parser(ctx(), "builtin.module {" + MODULES[ob["module"]] + "}").parse_module()
@@ -901,7 +960,7 @@ def toggle_bools(m, src):
                 op.properties[k] = ArrayAttr([BoolAttr.from_bool(b) for b in vals])
 
 
-def add_discardable(m, src, only=None):
+def add_discardable(m, src, only=None, clash=True):
     """every operation gets a discardable attribute with one shared symbolic payload, and - where the operation still
     verifies - discardable attributes named like each of its properties (a name coincidence the two dictionaries allow)"""
     from xdsl.dialects.builtin import StringAttr, i32
@@ -913,7 +972,7 @@ def add_discardable(m, src, only=None):
             continue
         if only is None:
             op.attributes["vx.extra"] = shared
-        for k in list(op.properties):
+        for k in list(op.properties) if clash else ():
             known = (op.name, k) in KNOWN_CLASH or ("*", k) in KNOWN_CLASH or (op.name.startswith("llvm.") and ("llvm.*", "*") in KNOWN_CLASH)
             if k in op.attributes or (known if only is None else [op.name, k] not in [list(x) for x in only]):
                 continue
@@ -932,14 +991,15 @@ def harness(ob, concrete=None):
         symstr.SYM_BYTEARRAY[0] = True
         symstr.SYM_DICT[0] = True
         symstr.HAVOC_FLOAT[0] = False
-        src = Src(ex, concrete, FOCUS.get(ob.get('gen') or ob['module'], 0), fixed_ints=bool(ob.get('sym_names') or ob.get('attrs') or ob.get('clash_only') or ob.get('units')))
+        mk_ctx = ctx_all if "corpus" in ob else ctx
+        src = Src(ex, concrete, FOCUS.get(ob.get('gen') or ob.get('module'), 0), fixed_ints=bool(ob.get('sym_names') or ob.get('attrs') or ob.get('clash_only') or ob.get('units')))
         m = build_module(ob, src)
         if ob.get("units"):
             toggle_units(m, Src(ex, concrete))
         if ob.get("bools"):
             toggle_bools(m, Src(ex, concrete))
         if ob.get("attrs"):
-            add_discardable(m, Src(ex, concrete))
+            add_discardable(m, Src(ex, concrete), clash="corpus" not in ob)
         if ob.get("clash_only"):
             add_discardable(m, Src(ex, concrete, fixed_ints=True), only=ob["clash_only"])
         try:
@@ -952,7 +1012,7 @@ def harness(ob, concrete=None):
         if ex is not None:
             ex.note("text", repr(custom)[:300])
         try:
-            m2 = Parser(ctx(), custom).parse_module()
+            m2 = Parser(mk_ctx(), custom).parse_module()
             m2.verify()
         except (ParseError, VerifyException) as e:
             return {"prop": False, "detail": f"the custom form does not parse back: {type(e).__name__}: {str(e)[:200]!r}" if concrete is not None else "the custom form does not parse back"}
@@ -966,7 +1026,7 @@ def harness(ob, concrete=None):
         r = band(r, e2)
         generic = print_module(m, True)
         try:
-            m3 = Parser(ctx(), generic).parse_module()
+            m3 = Parser(mk_ctx(), generic).parse_module()
         except (ParseError, VerifyException):
             return {"prop": False, "detail": "the generic form does not parse back"}
         r3, where = same_module(m2, m3)
@@ -989,6 +1049,7 @@ def bounds(tier):
             "symbolic_payloads": "integer constants, dense/array elements, switch case values, static offsets/sizes/strides, alignments, argument/result/discardable attribute values: full range of their type; "
                                  "comparison predicates: all; symbol names and strings: 1-2 cells over ASCII (12 classes)",
             "discardable_attributes": "one variant of every module adds a discardable attribute with a symbolic i32 payload to every operation and, where the operation still verifies, discardable attributes named like its properties",
+            "corpus": "modules of tests/filecheck/dialects files (quick: files up to 4000 characters; thorough: up to 16000) with one symbolic discardable attribute on every operation; everything else in them is concrete",
             "enumerated": "presence of optional attributes/operands/results, variadic counts 0-2, overflow/fast-math flag sets (8 variants), element counts 0-2"}
 
 
@@ -1027,6 +1088,9 @@ def obligations(tier):
                 obs.append(dict(o, id=f"C05/gen/dense/{nx}{ny}{hz}", counts=(nx, ny, hz)))
             continue
         obs.append(o)
+    for rel, size in CORPUS:
+        if th or size <= 4000:
+            obs.append({"id": f"C05/corpus/{rel}", "corpus": rel, "attrs": True, "weight": 3 + size // 1000})
     for o in obs:
         o.setdefault("budget_s", 240 if not th else 900)
     return obs
